@@ -9,7 +9,7 @@ from vlib import lib, run, tlc, ndb
 from props.c02 import first_meta
 
 PROP = 'C16'
-SEPS = ['', '\x1d', '|', '~']
+SEPS = ['', '\x1d', '[FNC1]', '|', '{FNC1}', '<GS>', '~']
 
 
 def table():
@@ -172,7 +172,7 @@ def main():
         for a in sel:
             fam.setdefault(a[:3] if by_type(rows, a) == 'decimal' else a, a)
         maps.append((sorted(fam.values()), rnd.choice(['min', 'mid', 'max'])))
-    p = {'seed': chk.seed, 'seps': SEPS[:2] if quick else SEPS}
+    p = {'seed': chk.seed, 'seps': SEPS[:3] if quick else SEPS}
     units = [(rows, maps[i::32], p) for i in range(32)]
     shards = chk.drive(units, worker)
     extra = run.merge_extra(shards)
